@@ -56,7 +56,39 @@ type val struct {
 	n    int64 // time: nanoseconds
 	s    string
 	b    bool
-	of   *val // measure: the string value measured (elem or path); s = "len" | "runes"
+	of   *val // measure: the string value measured (elem or path); s = "len" | "runes"; extobj / exterr: the string parsed
+	// elem (str): external projections applied to the loop element, outermost last (url.Parse(x).Host → ["url.Parse.Host"])
+	chain []string
+	// extobj: set once the paired error was tested and the failing branch left
+	checked *bool
+}
+
+// external functions the model takes as parameters (Env): names are shared with harness/bodies.go, ids are positions here
+var externFnNames = []string{"url.Parse.Scheme", "url.Parse.Host", "url.Parse.Opaque", "url.Parse.Path", "url.Parse.Hostname", "strings.ToLower", "strings.ToUpper"}
+var externPredNames = []string{"url.Parse.err", "url.Parse.IsAbs", "url.Parse.User.nil", "mail.ParseAddress.err", "util.IsFQDNOrIP", "util.IsISOCountryCode", "util.IsLDHLabel", "util.IsInTLDMap", "util.HasReservedLabelPrefix", "util.HasXNLabelPrefix"}
+
+func externID(names []string, n string) int {
+	for i, x := range names {
+		if x == n {
+			return i
+		}
+	}
+	unsupported("external function %s", n)
+	return -1
+}
+
+// wrap a predicate on a projected string into projections from the loop element
+func wrapChain(chain []string, p interface{}) interface{} {
+	for i := len(chain) - 1; i >= 0; i-- {
+		p = T{"pProj", externID(externFnNames, chain[i]), p}
+	}
+	return p
+}
+
+func withChain(v val, f string) val {
+	externID(externFnNames, f)
+	v.chain = append(append([]string{}, v.chain...), f)
+	return v
 }
 
 type trans struct {
@@ -301,6 +333,14 @@ func (t *trans) value(e ast.Expr) val {
 			return val{kind: "path", path: p}
 		case "ext":
 			unsupported("extension field %s", x.Sel.Name) // .Critical is handled in cond
+		case "extobj":
+			if base.checked == nil || !*base.checked {
+				unsupported("use of the result of %s before its error is tested", base.s)
+			}
+			if isStringType(t.typeOf(x)) {
+				return withChain(*base.of, base.s+"."+x.Sel.Name)
+			}
+			unsupported("field %s of %s result", x.Sel.Name, base.s)
 		}
 		unsupported("selector %s", exprString(x))
 	case *ast.CallExpr:
@@ -311,6 +351,16 @@ func (t *trans) value(e ast.Expr) val {
 					noteField(inner.path, "str")
 				}
 				return val{kind: "measure", s: map[string]string{"builtin.len": "len", "unicode/utf8.RuneCountInString": "runes"}[name], of: &inner}
+			}
+		}
+		if name, _ := t.calleeName(x); (name == "strings.ToLower" || name == "strings.ToUpper") && len(x.Args) == 1 {
+			if inner, ok := t.tryValue(x.Args[0]); ok && inner.kind == "elem" && inner.ek == "str" {
+				return withChain(inner, name)
+			}
+		}
+		if name, _ := t.calleeName(x); name == "method:(*net/url.URL).Hostname" {
+			if base, ok := t.tryValue(x.Fun.(*ast.SelectorExpr).X); ok && base.kind == "extobj" && base.checked != nil && *base.checked {
+				return withChain(*base.of, base.s+".Hostname")
 			}
 		}
 		if name, _ := t.calleeName(x); name == "github.com/zmap/zlint/v3/util.GetExtFromCert" && len(x.Args) == 2 {
@@ -503,9 +553,25 @@ func (t *trans) compare(x *ast.BinaryExpr, cn string) interface{} {
 		if cn != "eq" && cn != "ne" {
 			unsupported("nil ordering")
 		}
+		// parsed.User == nil
+		if sel, ok := stripParen(other).(*ast.SelectorExpr); ok && sel.Sel.Name == "User" {
+			if base, ok := t.tryValue(sel.X); ok && base.kind == "extobj" && base.checked != nil && *base.checked {
+				p := wrapChain(base.of.chain, T{"pExt", externID(externPredNames, base.s+".User.nil")})
+				if cn == "ne" {
+					return T{"pNot", p}
+				}
+				return p
+			}
+		}
 		v := t.value(other)
 		var c interface{}
 		switch v.kind {
+		case "exterr":
+			p := wrapChain(v.of.chain, T{"pExt", externID(externPredNames, v.s+".err")})
+			if cn == "eq" {
+				return T{"pNot", p}
+			}
+			return p
 		case "ext":
 			c = T{"not", T{"ext", oidT(v.oid)}} // == nil
 		case "path":
@@ -576,7 +642,7 @@ func (t *trans) compare(x *ast.BinaryExpr, cn string) interface{} {
 		tag := map[string]string{"len": "pLen", "runes": "pRunes"}[l.s]
 		p := T{tag, cn, r.i}
 		if l.of.kind == "elem" {
-			return p
+			return wrapChain(l.of.chain, p)
 		}
 		return T{"strP", l.of.path, p}
 	}
@@ -592,7 +658,7 @@ func (t *trans) compare(x *ast.BinaryExpr, cn string) interface{} {
 		}
 		return c
 	case l.kind == "elem" && l.ek == "str" && r.kind == "str" && (cn == "eq" || cn == "ne"):
-		c := T{"pEq", strT(r.s)}
+		c := wrapChain(l.chain, T{"pEq", strT(r.s)})
 		if cn == "ne" {
 			return T{"pNot", c}
 		}
@@ -622,10 +688,26 @@ func (t *trans) callCond(c *ast.CallExpr) interface{} {
 			a := t.value(c.Args[0])
 			b := t.value(c.Args[1])
 			if a.kind == "elem" && a.ek == "str" && b.kind == "str" {
-				return T{map[string]string{"strings.HasPrefix": "pPrefix", "strings.HasSuffix": "pSuffix", "strings.Contains": "pContains"}[name], strT(b.s)}
+				return wrapChain(a.chain, T{map[string]string{"strings.HasPrefix": "pPrefix", "strings.HasSuffix": "pSuffix", "strings.Contains": "pContains"}[name], strT(b.s)})
 			}
 		}
 		unsupported("string predicate %s", exprString(c))
+	}
+	// external predicates on a string element (or a projection of it)
+	if strings.HasPrefix(name, modPath+"/util.") && len(c.Args) == 1 && isStringType(t.typeOf(c.Args[0])) {
+		short := "util." + name[len(modPath+"/util."):]
+		for _, en := range externPredNames {
+			if en == short {
+				if a, ok := t.tryValue(c.Args[0]); ok && a.kind == "elem" && a.ek == "str" {
+					return wrapChain(a.chain, T{"pExt", externID(externPredNames, short)})
+				}
+			}
+		}
+	}
+	if name == "method:(*net/url.URL).IsAbs" {
+		if base, ok := t.tryValue(c.Fun.(*ast.SelectorExpr).X); ok && base.kind == "extobj" && base.checked != nil && *base.checked {
+			return wrapChain(base.of.chain, T{"pExt", externID(externPredNames, base.s+".IsAbs")})
+		}
 	}
 	// time comparisons
 	if name == "method:(time.Time).Before" || name == "method:(time.Time).After" || name == "method:(time.Time).Equal" {
@@ -1005,6 +1087,20 @@ func (t *trans) rangeStmt(s *ast.RangeStmt, rest []ast.Stmt, boolFn bool) interf
 	} else {
 		t.env[t.p.TypesInfo.Defs[vid]] = val{kind: "elem", path: path, ek: ek}
 	}
+	if ek == "str" {
+		lc := &loopCtx{boolFn: boolFn}
+		p := simplifyP(t.walkLoop(s.Body.List, lc))
+		t.env = saved
+		restT := t.stmts(rest, boolFn)
+		pt := p.(T)
+		switch {
+		case pt[0] == "pFalse" || lc.result == nil:
+			return restT
+		case pt[0] == "pTrue":
+			return T{"ite", T{"len", path, "gt", 0}, lc.result, restT}
+		}
+		return T{"ite", T{"anyS", path, p}, lc.result, restT}
+	}
 	// body: one or more `if P { return R }` with the same R
 	var preds []interface{}
 	var result interface{}
@@ -1147,6 +1243,253 @@ func (t *trans) mapLookupPred(is *ast.IfStmt, ek string) (interface{}, bool) {
 		out = append(out, oidT(arcs))
 	}
 	return out, true
+}
+
+// ---- the body of a loop over a string list, as a predicate on the element: "this iteration returns"
+//
+// Every return in the body must return the same result (otherwise which one is reported depends on the order of the
+// list and the loop is not an `any`); `continue` ends the iteration; bindings of external parses are tracked, and
+// the parse result may only be used once its error was tested and the failing branch left.
+
+type loopCtx struct {
+	result interface{}
+	boolFn bool
+}
+
+func terminatesIter(list []ast.Stmt) bool {
+	if len(list) == 0 {
+		return false
+	}
+	switch s := list[len(list)-1].(type) {
+	case *ast.ReturnStmt:
+		return true
+	case *ast.BranchStmt:
+		return s.Tok == token.CONTINUE && s.Label == nil
+	case *ast.IfStmt:
+		if s.Else == nil || !terminatesIter(s.Body.List) {
+			return false
+		}
+		switch e := s.Else.(type) {
+		case *ast.BlockStmt:
+			return terminatesIter(e.List)
+		case *ast.IfStmt:
+			return terminatesIter([]ast.Stmt{e})
+		}
+	}
+	return false
+}
+
+func simplifyP(p interface{}) interface{} {
+	n, ok := p.(T)
+	if !ok || len(n) == 0 {
+		return p
+	}
+	switch n[0] {
+	case "pAnd":
+		a, b := simplifyP(n[1]).(T), simplifyP(n[2]).(T)
+		switch {
+		case a[0] == "pFalse" || b[0] == "pFalse":
+			return T{"pFalse"}
+		case a[0] == "pTrue":
+			return b
+		case b[0] == "pTrue":
+			return a
+		}
+		return T{"pAnd", a, b}
+	case "pOr":
+		a, b := simplifyP(n[1]).(T), simplifyP(n[2]).(T)
+		switch {
+		case a[0] == "pTrue" || b[0] == "pTrue":
+			return T{"pTrue"}
+		case a[0] == "pFalse":
+			return b
+		case b[0] == "pFalse":
+			return a
+		}
+		return T{"pOr", a, b}
+	case "pNot":
+		a := simplifyP(n[1]).(T)
+		switch a[0] {
+		case "pTrue":
+			return T{"pFalse"}
+		case "pFalse":
+			return T{"pTrue"}
+		case "pNot":
+			return a[1]
+		}
+		return T{"pNot", a}
+	}
+	return p
+}
+
+func (t *trans) walkLoop(list []ast.Stmt, lc *loopCtx) interface{} {
+	if len(list) == 0 {
+		return T{"pFalse"}
+	}
+	rest := list[1:]
+	switch s := list[0].(type) {
+	case *ast.ReturnStmt:
+		r := t.stmts([]ast.Stmt{s}, lc.boolFn)
+		rt := r.(T)
+		if rt[0] != "ret" && rt[0] != "retb" {
+			unsupported("loop body result")
+		}
+		if lc.result != nil && fmt.Sprint(lc.result) != fmt.Sprint(r) {
+			unsupported("loop returns different results (order-dependent)")
+		}
+		lc.result = r
+		return T{"pTrue"}
+	case *ast.BranchStmt:
+		if s.Tok == token.CONTINUE && s.Label == nil {
+			return T{"pFalse"}
+		}
+		unsupported("loop body: %s", s.Tok)
+	case *ast.AssignStmt:
+		t.bindLoop(s)
+		return t.walkLoop(rest, lc)
+	case *ast.BlockStmt:
+		return t.walkLoop(append(append([]ast.Stmt{}, s.List...), rest...), lc)
+	case *ast.IfStmt:
+		saved := t.snapshot()
+		if s.Init != nil {
+			as, ok := s.Init.(*ast.AssignStmt)
+			if !ok {
+				unsupported("loop body shape")
+			}
+			t.bindLoop(as)
+		}
+		c := t.condP(s.Cond)
+		// `if err != nil { …leave }`: from here on the parse result may be used
+		var marks []*bool
+		if terminatesIter(s.Body.List) {
+			marks = t.errTested(s.Cond)
+		}
+		afterInit := t.snapshot()
+		thenL := s.Body.List
+		if !terminatesIter(thenL) {
+			thenL = append(append([]ast.Stmt{}, thenL...), rest...)
+		}
+		th := t.walkLoop(thenL, lc)
+		t.env = afterInit
+		for _, m := range marks {
+			*m = true
+		}
+		var el interface{}
+		switch e := s.Else.(type) {
+		case nil:
+			el = t.walkLoop(rest, lc)
+		case *ast.BlockStmt:
+			l := e.List
+			if !terminatesIter(l) {
+				l = append(append([]ast.Stmt{}, l...), rest...)
+			}
+			el = t.walkLoop(l, lc)
+		case *ast.IfStmt:
+			el = t.walkLoop(append([]ast.Stmt{e}, rest...), lc)
+		}
+		for _, m := range marks {
+			*m = false
+		}
+		t.env = saved
+		return T{"pOr", T{"pAnd", c, th}, T{"pAnd", T{"pNot", c}, el}}
+	}
+	unsupported("loop body shape")
+	return nil
+}
+
+// a condition inside a string loop, as an element predicate
+func (t *trans) condP(e ast.Expr) interface{} {
+	e = stripParen(e)
+	switch x := e.(type) {
+	case *ast.UnaryExpr:
+		if x.Op == token.NOT {
+			return T{"pNot", t.condP(x.X)}
+		}
+	case *ast.BinaryExpr:
+		if x.Op == token.LAND {
+			return T{"pAnd", t.condP(x.X), t.condP(x.Y)}
+		}
+		if x.Op == token.LOR {
+			return T{"pOr", t.condP(x.X), t.condP(x.Y)}
+		}
+	}
+	c, ok := t.cond(e).(T)
+	if !ok || len(c) == 0 {
+		unsupported("element predicate %s", exprString(e))
+	}
+	if tag, _ := c[0].(string); !strings.HasPrefix(tag, "p") {
+		unsupported("condition %s inside a loop does not speak about the element", exprString(e))
+	}
+	return c
+}
+
+// the extobj marks that `cond` (of the shape err != nil, possibly a disjunct) guards
+func (t *trans) errTested(cond ast.Expr) []*bool {
+	b, ok := stripParen(cond).(*ast.BinaryExpr)
+	if !ok || b.Op != token.NEQ || !isNilIdent(t, b.Y) {
+		return nil
+	}
+	v, ok := t.tryValue(b.X)
+	if !ok || v.kind != "exterr" || v.checked == nil {
+		return nil
+	}
+	return []*bool{v.checked}
+}
+
+// bindings inside a loop body
+func (t *trans) bindLoop(as *ast.AssignStmt) {
+	// x = strings.ToLower(x) on the loop variable
+	if as.Tok == token.ASSIGN && len(as.Lhs) == 1 && len(as.Rhs) == 1 {
+		if id, ok := as.Lhs[0].(*ast.Ident); ok {
+			obj := t.p.TypesInfo.Uses[id]
+			if old, ok := t.env[obj]; ok && old.kind == "elem" && old.ek == "str" {
+				nv := t.value(as.Rhs[0])
+				if nv.kind == "elem" && nv.ek == "str" && nv.path == old.path {
+					t.env[obj] = nv
+					return
+				}
+			}
+		}
+		unsupported("assignment in a loop body")
+	}
+	if as.Tok != token.DEFINE {
+		unsupported("assignment in a loop body")
+	}
+	if len(as.Lhs) == 2 && len(as.Rhs) == 1 {
+		call, ok := as.Rhs[0].(*ast.CallExpr)
+		if !ok || len(call.Args) != 1 {
+			unsupported("loop body shape")
+		}
+		name, _ := t.calleeName(call)
+		short := map[string]string{"net/url.Parse": "url.Parse", "net/mail.ParseAddress": "mail.ParseAddress"}[name]
+		arg, aok := t.tryValue(call.Args[0])
+		if short == "" || !aok || arg.kind != "elem" || arg.ek != "str" {
+			unsupported("loop body: %s", exprString(call))
+		}
+		externID(externPredNames, short+".err")
+		checked := new(bool)
+		a := arg
+		if id, ok := as.Lhs[0].(*ast.Ident); ok && id.Name != "_" {
+			t.env[t.p.TypesInfo.Defs[id]] = val{kind: "extobj", s: short, of: &a, checked: checked}
+		}
+		if id, ok := as.Lhs[1].(*ast.Ident); ok && id.Name != "_" {
+			t.env[t.p.TypesInfo.Defs[id]] = val{kind: "exterr", s: short, of: &a, checked: checked}
+		}
+		return
+	}
+	if len(as.Lhs) == 1 && len(as.Rhs) == 1 {
+		id, ok := as.Lhs[0].(*ast.Ident)
+		if !ok {
+			unsupported("loop body shape")
+		}
+		v := t.value(as.Rhs[0])
+		if v.kind != "measure" && !(v.kind == "elem" && v.ek == "str") {
+			unsupported("loop body: binding of %s", exprString(as.Rhs[0]))
+		}
+		t.env[t.p.TypesInfo.Defs[id]] = v
+		return
+	}
+	unsupported("loop body shape")
 }
 
 func orPred(p, q interface{}, ek string) interface{} {
@@ -1311,5 +1654,48 @@ func translateBodies(pkgs []*packages.Package, byPath map[string]*packages.Packa
 	facts.Tables["bodies"] = out
 	facts.Tables["body_fields"] = fields
 	facts.Tables["body_untranslated"] = reasons
+	// string fields on whose values some rule applies an external function
+	extPaths := map[string]bool{}
+	var hasExt func(term interface{}) bool
+	hasExt = func(term interface{}) bool {
+		n, ok := term.(T)
+		if !ok || len(n) == 0 {
+			return false
+		}
+		if tag, _ := n[0].(string); tag == "pExt" || tag == "pProj" {
+			return true
+		}
+		for _, c := range n {
+			if hasExt(c) {
+				return true
+			}
+		}
+		return false
+	}
+	var scan func(term interface{})
+	scan = func(term interface{}) {
+		n, ok := term.(T)
+		if !ok || len(n) == 0 {
+			return
+		}
+		if tag, _ := n[0].(string); (tag == "anyS" || tag == "strP") && hasExt(n[2]) {
+			extPaths[n[1].(string)] = true
+		}
+		for _, c := range n {
+			scan(c)
+		}
+	}
+	for _, b := range out {
+		scan(b.Applies)
+		scan(b.Body)
+	}
+	var extPathList []string
+	for k := range extPaths {
+		extPathList = append(extPathList, k)
+	}
+	sort.Strings(extPathList)
+	facts.Tables["body_extern_paths"] = extPathList
+	facts.Tables["body_extern_fns"] = externFnNames
+	facts.Tables["body_extern_preds"] = externPredNames
 	facts.Stats["bodies_translated"] = len(out)
 }
